@@ -106,6 +106,9 @@ func (c *Client) validateVirtualChannelSettlementProposal(
 	}
 
 	// Validate signatures.
+	if len(prop.Final.Sigs) != len(prop.Final.Params.Parts) {
+		return errors.New("wrong number of signatures")
+	}
 	for i, sig := range prop.Final.Sigs {
 		for _, p := range prop.Final.Params.Parts[i] {
 			ok, err := channel.Verify(
